@@ -1730,7 +1730,10 @@ func c14ConstructorsCase(c *mon.Case) {
 		routine.WithExitCb(func(err error) { mu.Lock(); cb1 = append(cb1, err); mu.Unlock() }),
 		routine.WithExitCb(func(err error) { mu.Lock(); cb2 = append(cb2, err); mu.Unlock() }),
 	}
-	if retryKind == 0 {
+	if retryKind == 0 && r.IntN(3) == 0 {
+		// an interval of zero means "retry at once", not "do not retry"
+		opts = append(opts, routine.WithBackoff(&cbackoff.ZeroBackOff{}))
+	} else if retryKind == 0 {
 		opts = append(opts, routine.WithBackoff(cbackoff.NewConstantBackOff(rtBackoff)))
 	} else {
 		opts = append(opts, routine.WithRetry(&ubackoff.Backoff{BackoffKind: ubackoff.BackoffKind_BackoffKind_CONSTANT, Constant: &ubackoff.Constant{Interval: 1}}))
